@@ -82,7 +82,21 @@ def d1_flag(facts, rep):
         ue = edges_where(fn, uninit)
         ok2 = bool(winner) and all(dominated_by_edges(fn, p, ue)[0] for p, _ in winner)
         rep.ob('D1', 'K4', fn, 'the winner CAS is attempted only from the uninitialized state', ok2, 'a done / running flag can be overwritten by a new winner')
-    rep.floor('D1', 4, 'flag writers')
+        # a caller leaves only as the winner (after run_once) or after it has observed the value `done` itself:
+        # every path to the normal exit passes run_once() or an edge on which expected == done is known
+        ro = set(c[0] for c in calls_named(fn, ('run_once',)))
+
+        def saw_done(a, truth):
+            n = fn.n(fn.strip(a))
+            if n.get('k') != 'binop' or n['op'] not in ('==', '!='):
+                return False
+            return fn.n(fn.strip(n['l'])).get('v') in exp_v and fn.cv(n['r']) == 1 and ((n['op'] == '==') == truth)
+        de = edges_where(fn, saw_done)
+        ok3, wit3 = every_path_passes(fn, 'entry', lambda p, e: p in ro, stop_edge=lambda b, si: (b, si) in de)
+        rep.ob('D1', 'K4', fn, 'a caller returns only as the winner or after it observed the state done', bool(ro) and bool(de) and ok3,
+               'a waiter / helper can return although no attempt has completed (e.g. after the winner\'s functor threw and the flag went '
+               'back to uninitialized): it neither sees the effects nor retries: ' + wit3)
+    rep.floor('D1', 5, 'flag writers + exit condition')
 
 
 def d2_lifetime(facts, rep):
